@@ -751,6 +751,14 @@ impl<'a> Run<'a> {
                     self.files[k] = Some(MFile { node, pos: 0, dirty: false });
                 }
             }
+        } else if matches!(&res, Err(e) if ek(e) == EK::NotEnoughSpace) {
+            // refused for lack of room: the library may have written slots into the parent directory and marked them
+            // deleted again, which stamps the directory like any write into it
+            if let Some((parent, _)) = target {
+                if parent != 0 {
+                    self.model.node_mut(parent).times_known = false;
+                }
+            }
         }
         Ok(true)
     }
@@ -1056,6 +1064,13 @@ impl<'a> Run<'a> {
                 self.trace.hit("mutation");
             } else {
                 self.trace.desync = true;
+            }
+        } else if matches!(&res, Err(e) if ek(e) == EK::NotEnoughSpace) {
+            // see op_create: the destination directory may have been written into before the refusal
+            if let Resolved::At(dp, _) = &dres {
+                if *dp != 0 {
+                    self.model.node_mut(*dp).times_known = false;
+                }
             }
         }
         Ok(true)
